@@ -47,6 +47,8 @@ pub struct Checks {
     pub cell_sequences: bool,
     /// framing automaton: (CASET RASET RAMWR PIXELS)* only, pixels <= window area (C08)
     pub framing: bool,
+    /// a panic or a non-terminating call is a failure
+    pub no_panic: bool,
 }
 impl Checks {
     pub const ALL: Checks = Checks {
@@ -57,10 +59,23 @@ impl Checks {
         size: true,
         cell_sequences: false,
         framing: true,
+        no_panic: true,
+    };
+    /// C08: only what the controller sees on the bus
+    pub const FRAMING: Checks = Checks {
+        outcome_ok: false,
+        mem_eq: false,
+        protocol: true,
+        state_unchanged: false,
+        size: false,
+        cell_sequences: false,
+        framing: true,
+        no_panic: false,
     };
     pub fn by_name(n: &str) -> Checks {
         match n {
             "sequences" => Checks { cell_sequences: true, ..Checks::ALL },
+            "framing" => Checks::FRAMING,
             _ => Checks::ALL,
         }
     }
@@ -221,8 +236,16 @@ pub fn check_history(cfg: &Cfg, hist: &[Op], ck: &Checks) -> Result<Run, (Fail, 
         let mut fail: Option<Fail> = None;
         match &out {
             Outcome::Ok => {}
-            Outcome::Panic(m) => fail = Some(mk("panic", format!("panicked: {m}"))),
-            Outcome::NonTermination(m) => fail = Some(mk("non-termination", m.clone())),
+            Outcome::Panic(m) => {
+                if ck.no_panic {
+                    fail = Some(mk("panic", format!("panicked: {m}")))
+                }
+            }
+            Outcome::NonTermination(m) => {
+                if ck.no_panic {
+                    fail = Some(mk("non-termination", m.clone()))
+                }
+            }
             Outcome::Err(e) => {
                 if ck.outcome_ok {
                     fail = Some(mk("spurious-error", format!("returned {e:?} although the bus never failed")))
@@ -265,7 +288,7 @@ pub fn check_history(cfg: &Cfg, hist: &[Op], ck: &Checks) -> Result<Run, (Fail, 
                 fail = Some(mk("size", format!("size()={:?} bounding_box()={:?}, specification {}x{}", d.size(), d.bbox(), lw, lh)));
             }
         }
-        if fail.is_none() {
+        if fail.is_none() && ck.size {
             if let Op::SetOrientation(o) = op {
                 let st = d.state();
                 let want = madctl_spec(st.bgr, *o, st.refresh);
